@@ -124,7 +124,7 @@ theorem primBody_fresh_renders (info : FieldInfo) (k : PrimK) (obj : GoVal) (x :
             · exact absurd ⟨hpe, h2⟩ hnil
           simp [hpe, this]
         · simp [hpe]
-      · simp [primRenders, hn]
+      · simp [primRenders, primKindOf, hk, hn]
     · refine ⟨.prim k false false s, ?_, ?_⟩
       · unfold primBody
         simp only [hk, primFresh, nullOfTy, hnp, hzv, assignPrim, hn]
@@ -135,7 +135,7 @@ theorem primBody_fresh_renders (info : FieldInfo) (k : PrimK) (obj : GoVal) (x :
             · exact absurd ⟨hpe, h2⟩ hnil
           simp [hpe, this]
         · simp [hpe]
-      · simp [primRenders, hn]
+      · simp [primRenders, primKindOf, hk, hn]
   · have hn' : info.isNullable = false := by simpa using hn
     simp only [hn', Bool.false_eq_true, if_false] at ht
     obtain ⟨s, c, rfl, hc, hz⟩ := ht
@@ -151,7 +151,7 @@ theorem primBody_fresh_renders (info : FieldInfo) (k : PrimK) (obj : GoVal) (x :
             · exact absurd ⟨hpe, h2⟩ hnil
           simp [hpe, this]
         · simp [hpe]
-      · simp [primRenders, hn', hc, hzv]
+      · simp [primRenders, primKindOf, hk, hn', hc, hzv]
     · obtain ⟨b, hb, hbz⟩ := hz hzv
       refine ⟨.prim k false b c, ?_, ?_⟩
       · unfold primBody
@@ -164,6 +164,6 @@ theorem primBody_fresh_renders (info : FieldInfo) (k : PrimK) (obj : GoVal) (x :
             · exact absurd ⟨hpe, h2⟩ hnil
           simp [hpe, this]
         · simp [hpe]
-      · simp [primRenders, hn', hc, hzv, hbz]
+      · simp [primRenders, primKindOf, hk, hn', hc, hzv, hbz]
 
 end PGT
